@@ -221,6 +221,26 @@ def r2_rejection_effect_free(R) -> None:
         raises = [n for n in cfg.nodes if n.kind == 'stmt' and isinstance(n.ast, ast.Raise)]
         up = _upfront_raises(cfg, starts, raises)
         R.expect(q, len(up), 4, 'up-front rejections (ValueError, IndexErrors, SolutionError)')
+        # the rejection of contradictory iteration limits is one of them: it must not come after the work has started
+        from fsa.flow import guards as _g
+        late = []
+        for r in raises:
+            if raised_class(r.ast) != 'ValueError' or r in up:
+                continue
+            for (tid, _lab) in _g(cfg, r.id):
+                ta = cfg.nodes[tid].ast
+                if ta is not None and any(b_ == r.id for (b_, _l) in cfg.nodes[tid].succ) and any(isinstance(c_, ast.Compare) and {'min_iter', 'max_iter'} <= {x.id for x in ast.walk(c_) if isinstance(x, ast.Name)} for c_ in ast.walk(ta)):
+                    late.append(r)
+                    break
+        for r in late:
+            fwd = cfg.reachable_from(cfg.entry)
+            before = [e for e in eff if e in fwd and r.id in cfg.reachable_from(e)]
+            started = [s_ for s_ in starts if r.id in cfg.reachable_from(s_)]
+            first = cfg.nodes[(before or started)[0]] if (before or started) else None
+            R.violation(q, 'limits-rejected-late',
+                        f'`min_iter > max_iter` is rejected (ValueError, L{r.lineno}) only after the work on the period has started'
+                        + (f': `{first.label()[:60]}` has already run (the offset copy has overwritten period t, the pre-solution hook has been called)' if first is not None else '')
+                        + ' - a rejected call must leave everything unchanged', where=f'{fi.module.relpath}:{r.lineno}')
         for r in up:
             fwd = cfg.reachable_from(cfg.entry)
             on_path = [e for e in eff if e in fwd and r.id in cfg.reachable_from(e)]
